@@ -681,7 +681,12 @@ impl NodeRecordStore {
         // Store the new record to the cache
         self.records_cache.push_back(key.clone(), r.clone());
 
-        self.prune_records_if_needed(key)?;
+        if let Err(err) = self.prune_records_if_needed(key) {
+            // the record was refused: it must not stay readable from the cache, nor make a later
+            // retry with the same content look like "already have it"
+            let _ = self.records_cache.remove(key);
+            return Err(err);
+        }
 
         let filename = Self::generate_filename(key);
         let file_path = self.config.storage_dir.join(&filename);
